@@ -89,6 +89,8 @@ PolySteps ==
     {Step("translate", [d |-> v, q |-> 1]) : v \in Vecs2}
     \cup {Step("intersection", [p2 |-> p]) : p \in SmallPolys2}
     \cup {Step("intersection_n", [ps |-> <<p, r>>]) : p \in SmallPolys2, r \in {PolyOfRows(<<<<<<1, 1>>, 2>>>>)}}
+    \* two operands in a row with the same normals and different right-hand sides
+    \cup {Step("intersection_n", [ps |-> <<PolyOfRows(<<<<<<1, 0>>, 1>>, <<<<0, 1>>, 1>>>>), PolyOfRows(<<<<<<1, 0>>, 0>>, <<<<0, 1>>, 0>>>>)>>])}
     \cup {Step("apply_pre", [f |-> f]) : f \in Affs22}
     \cup {Step("apply_post", [m |-> u[1], minv |-> u[2], c |-> c]) : u \in Unimod, c \in {<<0, 0>>, <<1, -2>>}}
     \cup {Step("rotate", [r |-> r]) : r \in Orth2}
@@ -133,7 +135,9 @@ CExtra == {PolyOfRows(<<<<<<1, 0>>, 1>>, <<<<0, 0>>, -1>>, <<<<0, 1>>, 0>>>>), P
            \* a zero row in front of a duplicated pair; the same normal twice with the tighter bound last; tautology and absurd zero rows
            PolyOfRows(<<<<<<0, 0>>, 0>>, <<<<1, 0>>, 1>>, <<<<0, 1>>, 0>>, <<<<1, 0>>, 1>>>>),
            PolyOfRows(<<<<<<1, 0>>, 1>>, <<<<0, 1>>, 0>>, <<<<1, 0>>, 0>>>>),
-           PolyOfRows(<<<<<<0, 0>>, 1>>, <<<<1, 0>>, 1>>, <<<<0, 0>>, -1>>>>)}
+           PolyOfRows(<<<<<<0, 0>>, 1>>, <<<<1, 0>>, 1>>, <<<<0, 0>>, -1>>>>),
+           \* a zero row in front of rows whose norm is not 1
+           PolyOfRows(<<<<<<0, 0>>, 1>>, <<<<3, 4>>, 5>>, <<<<2, 0>>, 1>>>>)}
 CleanOps == {"remove_tautologies", "remove_duplicate_rows", "remove_redundant", "normalize", "remove_zero_rows", "remove_rows"}
 
 \* ---------------------------------------------------------------- affine algebra (C16)
